@@ -509,6 +509,9 @@ def cli(argv=None, mode='output'):
             cnf = args.generator.build_formula(args, formula_class=CNF)
         except (CLIError, ValueError) as e:
             args.generator.subparser.error(e)
+        except OverflowError as e:
+            args.generator.subparser.error(
+                "The requested formula is too large: {}".format(e))
         except RuntimeError as e:
             raise InternalBug(e) from e
 
@@ -517,6 +520,9 @@ def cli(argv=None, mode='output'):
                 cnf = argdict.transformation.transform_cnf(cnf, argdict)
             except (CLIError, ValueError) as e:
                 argdict.transformation.subparser.error(e)
+            except OverflowError as e:
+                argdict.transformation.subparser.error(
+                    "The requested formula is too large: {}".format(e))
             except RuntimeError as e:
                 raise InternalBug(e) from e
 
